@@ -1018,6 +1018,8 @@ void SimplifyConstTimes::constSimplify(SymRef s, vec<PTRef> const & terms, SymRe
         }
         if (not l.isOne(tr)) {
             if (l.isPlus(tr)) {
+                // only one sum can be scaled by the constant; a further sum stays a factor (the product is then non-linear)
+                if (plus != PTRef_Undef) { terms_new.push(plus); }
                 plus = tr;
             } else if (l.isConstant(tr)) {
                 con = tr;
